@@ -5,8 +5,8 @@
 From Coq Require Import NArith ZArith List Bool Sorting.Permutation Sorting.Sorted.
 From XV Require Import Base.Str Base.Dec Base.PyInt Gen.ConvTables
   Model.ConvBool Model.ConvInt Model.ConvBytes Model.ConvDecimal Model.ConvQName Model.ConvFloat Model.ConvEnum
-  Model.ConvFactory Model.ConvGuards Spec.XsdPrims
-  Proofs.ConvBool Proofs.ConvInt Proofs.ConvBytes Proofs.ConvDecimal Proofs.ConvQName Proofs.ConvFloat Proofs.ConvEnum Proofs.ConvFactory.
+  Model.ConvFactory Model.ConvDataType Model.ConvGuards Spec.XsdPrims Spec.XsdDates
+  Proofs.ConvBool Proofs.ConvInt Proofs.ConvBytes Proofs.ConvDecimal Proofs.ConvQName Proofs.ConvFloat Proofs.ConvEnum Proofs.ConvDataType Proofs.ConvFactory.
 Import ListNotations.
 
 (* ======================= bool <-> xs:boolean ======================= *)
@@ -354,3 +354,20 @@ Theorem C05_deserialize_documented : forall (V : Type) (conv : pytype -> str -> 
   = choose_by_priority documented_priority names (fun n => conv (TName n) s).
 Proof. exact @deserialize_documented. Qed.
 Print Assumptions C05_deserialize_documented.
+
+(* ======================= DataType.from_value ============================== *)
+(* the datatype written as xsi:type for an XmlPeriod: every valid g* literal (year 0000
+   and negative years included) gets the datatype of its own lexical space, computed
+   from the components XSD assigns to it *)
+Theorem C05_period_datatype_sound : forall p,
+  wf_period p = true -> period_datatype_of (val_period p) = period_kind p.
+Proof. exact period_datatype_sound. Qed.
+Print Assumptions C05_period_datatype_sound.
+
+Theorem C05_from_value_period : forall y m d, from_value (FvPeriod y m d) = period_datatype y m d.
+Proof. exact from_value_period. Qed.
+Print Assumptions C05_from_value_period.
+
+Theorem C05_from_value_int : forall z, from_value (FvInt z) = int_datatype z.
+Proof. exact from_value_int. Qed.
+Print Assumptions C05_from_value_int.
